@@ -1,14 +1,14 @@
 from props.shapes import *
 SC = {1: "encode(shared) || encode(shared)", 2: "encode(shared) || destroy(own instance listed before it)", 3: "first-ever create RS || create RS",
-      4: "create XOR || create XOR", 5: "encode(shared RS) || create+destroy own RS", 6: "destroy own RS || encode(shared RS)"}
-YIELDS = {1: [0, 1, 2, 6, 99], 2: [0, 1, 2, 6, 99], 3: [0, 1, 2, 5, 7, 10, 11, 12, 99], 4: [0, 1, 2, 5, 7, 99], 5: [0, 1, 2, 6, 99], 6: [0, 1, 2, 3, 4, 8, 13, 14, 99]}
+      4: "create XOR || create XOR", 5: "encode(shared RS) || create+destroy own RS", 6: "destroy own RS || encode(shared RS)", 7: "destroy own || destroy own (third instance stays)"}
+YIELDS = {1: [0, 1, 2, 6, 99], 2: [0, 1, 2, 6, 99], 3: [0, 1, 2, 5, 7, 10, 11, 12, 99], 4: [0, 1, 2, 5, 7, 99], 5: [0, 1, 2, 6, 99], 6: [0, 1, 2, 3, 4, 8, 13, 14, 99], 7: [0, 1, 2, 3, 4, 8, 99]}
 def plan(ctx):
     obs = []
     U = real_crc_units()
     for sc in sorted(SC):
         for y in YIELDS[sc]:
             for occ in ((1,) if y in (0, 99) else ((1, 2) if ctx.tier == "quick" else (1, 2, 3))):
-                blocked = sc in (3, 4) and y in (1, 2, 7)    # inside A's critical section: B is blocked on the unchanged tree (vacuous query, no witness required)
+                blocked = (sc in (3, 4) and y in (1, 2, 7)) or (sc == 7 and y == 8)    # inside A's critical section: B is blocked on the unchanged tree (vacuous query, no witness required)
                 obs.append(Ob(id=f"sched-scen{sc}-y{y}-occ{occ}", harness="c18.c", defs=dict(SCEN=sc, YIELD=y, OCC=occ), units=U, unwind=8, need_witness=not blocked,
                               unwindset={"crc32.0": 84, "crc32.1": 84, "liberasurecode_backend_alloc_desc.0": 8}, timeout=1200, mem_gb=4,
                               sample={"symbolic": "2x4 data bytes", "scenario": SC[sc], "preemption": f"B runs when A reaches yield point {y} for the {occ}. time (0: before A, 99: after A)"},
